@@ -100,6 +100,8 @@ def tx_menu(w):
         out['bad-signature'] = world.mk_tx([(r, K[2])], [(v - 7, K[1])])
         out['overspend'] = world.mk_tx([(r, K[0])], [(v + 1, K[1])])
         out['dup-reference'] = world.mk_tx([(r, K[0]), (r, K[0])], [(v, K[1])])
+        # the same output twice, each time with a DIFFERENT valid signature of the owner (the two inputs are not equal)
+        out['dup-reference-two-signatures'] = world.mk_tx([(r, K[0]), (r, ('second-signature', K[0]))], [(2 * v - 31, K[1])])
         out['zero-value'] = world.mk_tx([(r, K[0])], [(0, K[1]), (v - 9, K[1])])
         out['over-limit-value'] = world.mk_tx([(r, K[0])], [(refmodel.MAX_SASHIMI + 1, K[1])])
         # the same boundary values in other positions of the output list
@@ -402,6 +404,8 @@ def run(ctx):
     #      and the pool after the miner thread and the networking thread raced
     thr = thrscen.run(ctx, 'C13', 2 if ctx.quick else 3)
     thr2 = thrscen.run(ctx, 'MN', 1 if ctx.quick else 2, names=['found-vs-valid-sibling-delivery', 'found-vs-invalid-delivery', 'found-vs-transaction-delivery'], only=['C13:'])
+    thr2_c = thrscen.run(ctx, 'MNc', 2 if ctx.quick else 3, names=['found-vs-valid-sibling-delivery', 'found-vs-invalid-delivery', 'found-vs-transaction-delivery'], only=['C13:'])   # coarser points, one preemption more
+    ctx.cov['thread_schedules_coarse'] = thr2_c
     ctx.cov['thread_schedules'] = {'chain_manager': thr, 'miner_vs_networking': thr2}
     ctx.cov.update({
         'states': stats['states'], 'transitions': stats['transitions'], 'traces_validated_against_impl': stats['transitions'],
